@@ -44,6 +44,25 @@ CHECKS.update({
          "mag/frexp/ldexp/isint/nint_distance events judged by TLC against their exact definitions.",
          TRACE_NOTE, "DESIGN.md §4 C39"),
 })
+CHECKS.update({
+ "C11": (MC, "TLC exhaustive design model of the save/restore idioms with fault injection (PrecCtx) + TLC trace validation (TracePrecCtx) of recorded setter/enter/exit events with enumerated crash points",
+         "PrecCtx proves idioms A/M restore (prec, dps) from every start precision with a fault at every step and refutes idioms B/C; every "
+         "documentation statement of every public callable is executed at non-dps-image precisions, normally and with exceptions injected at "
+         "the k-th start of internal primitives / user callbacks, and the recorded events are validated by TLC against TracePrecCtx.",
+         "Trusted: TLC, the logging property setters (all precision writes go through them; the sync clause detects others at call boundaries), "
+         "sys.monitoring injection. Conversion formulas validated against libmp on 1..36000 at start-up. Crash points are sampled per statement "
+         "in the quick tier.", "DESIGN.md §4 C11"),
+ "C17": (MC, "TLC exhaustive model of the constant memo for an arbitrary constant (ConstMemo) + TLC trace validation of request histories on the real constants",
+         "ConstMemo: history-free, side-correct, 1-ulp and correctly-rounded-outside-ambiguity for every constant and history; real histories judged "
+         "by TLC for memo rule, history-freedom, mode ordering/adjacency and nested enclosures.",
+         "Values are judged relationally (one real number compatible with all answers); numerical anchoring of the elementary constants uses the spec's "
+         "series enclosures (RealFun) where wired in. Fixed-point routines are assumed to return true floors (refuted alternative shown by cfg/ConstMemo_floorerr).",
+         "DESIGN.md §4 C17"),
+ "C38": (MC, "TLC exhaustive three-context design model (PrecCtx Isolation) + TLC trace validation of interleaved programs over mp, clones, iv, fp",
+         "Action property Isolation over three contexts; seeded interleavings of setting changes, manager blocks and evaluations with the settings vector "
+         "of every context logged after each step and judged by TLC; clone results must be bit-identical.",
+         "Settings vector = (prec, dps, pretty, trap_complex). Coupling through module-level caches is C33's business.", "DESIGN.md §4 C38"),
+})
 
 ALL = ["C%02d" % i for i in range(1, 44)]
 NOT_APPLICABLE = {
